@@ -12,7 +12,7 @@ import builtins
 from typing import Any, Callable, Dict, List, Optional, Tuple
 
 from .fdcalls import CallMixin
-from .fdvalues import (BoundExt, Chooser, ClassVal, CoroVal, EnumVal, ExtVal, FuncVal, GatherVal, Obj, Opaque,
+from .fdvalues import (is_one_shot, one_shot, BoundExt, Chooser, ClassVal, CoroVal, EnumVal, ExtVal, FuncVal, GatherVal, Obj, Opaque,
                        PathAbort, PyRaise, StrT, strt_concat)
 from .report import Unsupported
 from .srcmodel import ClassDef, FuncDef, Module, SrcModel, assigned_expr, norm, walk_shallow
@@ -485,7 +485,16 @@ class Interp(CallMixin):
                 self.exec_block(st.orelse, frame)
             return
         if isinstance(st, (ast.For, ast.AsyncFor)):
-            items = self.iterate(self.eval(st.iter, frame), st.iter, frame)
+            iterable = self.eval(st.iter, frame)
+            if is_one_shot(iterable):
+                def pull(it_=iterable):  # one element at a time: a `break` leaves the rest in the iterator
+                    while it_.fields["pos"] < len(it_.fields["items"]):
+                        it_.fields["pos"] += 1
+                        yield it_.fields["items"][it_.fields["pos"] - 1]
+
+                items = pull()
+            else:
+                items = self.iterate(iterable, st.iter, frame)
             broke = False
             for item in items:
                 self.assign(st.target, item, frame)
@@ -815,6 +824,10 @@ class Interp(CallMixin):
     def iterate(self, v: Any, node: ast.AST, frame: Optional[Frame]) -> List[Any]:
         if isinstance(v, (list, tuple)):
             return list(v)
+        if is_one_shot(v):
+            rest = v.fields["items"][v.fields["pos"]:]
+            v.fields["pos"] = len(v.fields["items"])  # consumed: iterating it again yields nothing
+            return rest
         if isinstance(v, dict):
             return list(v.keys())
         if isinstance(v, (set, frozenset)):
@@ -977,7 +990,9 @@ class Interp(CallMixin):
             for r in results:
                 out.add(self.hashable(r, e, frame))
             return out
-        return results  # list comprehension and generator (materialised)
+        if isinstance(e, ast.GeneratorExp):
+            return one_shot(results)  # (elements are computed eagerly; the one-shot nature of the generator object is kept)
+        return results
 
     def compare(self, op: ast.cmpop, a: Any, b: Any, node: ast.AST, frame: Frame) -> bool:
         if isinstance(op, ast.Eq):
@@ -992,6 +1007,12 @@ class Interp(CallMixin):
             res = self.contains(b, a, node, frame)
             return res if isinstance(op, ast.In) else not res
         if isinstance(op, (ast.Lt, ast.LtE, ast.Gt, ast.GtE)):
+            if isinstance(a, (set, frozenset)) or isinstance(b, (set, frozenset)):
+                # subset / superset tests (the other side may be a dict's key view, modelled as a list)
+                sa = set(self.hashable(x, node, frame) for x in (a if isinstance(a, (set, frozenset, list, tuple)) else []))
+                sb = set(self.hashable(x, node, frame) for x in (b if isinstance(b, (set, frozenset, list, tuple)) else []))
+                if isinstance(a, (set, frozenset, list)) and isinstance(b, (set, frozenset, list)):
+                    return {ast.Lt: sa < sb, ast.LtE: sa <= sb, ast.Gt: sa > sb, ast.GtE: sa >= sb}[type(op)]
             if isinstance(a, (int, float)) and isinstance(b, (int, float)) or isinstance(a, str) and isinstance(b, str):
                 return {ast.Lt: a < b, ast.LtE: a <= b, ast.Gt: a > b, ast.GtE: a >= b}[type(op)]
             if isinstance(a, Opaque) or isinstance(b, Opaque):
@@ -1000,10 +1021,20 @@ class Interp(CallMixin):
         return False
 
     def contains(self, container: Any, item: Any, node: ast.AST, frame: Frame) -> bool:
+        if is_one_shot(container):
+            items_ = container.fields["items"]
+            while container.fields["pos"] < len(items_):
+                container.fields["pos"] += 1
+                x_ = items_[container.fields["pos"] - 1]
+                if self.identical(x_, item) or self.eq(x_, item):
+                    return True
+            return False
         if isinstance(container, (list, tuple, set, frozenset)):
             return any(self.identical(x, item) or self.eq(x, item) for x in container)
         if isinstance(container, dict):
             return any(self.eq(k, item) for k in container)
+        if isinstance(container, (str, StrT)) and isinstance(item, EnumVal) and self.is_subclass(item.cls, "builtins.str"):
+            item = item.value  # a str-mixin Enum member is its value
         if isinstance(container, str) and isinstance(item, str):
             return item in container
         if isinstance(container, (StrT, str)) and isinstance(item, (StrT, str)):
@@ -1213,8 +1244,8 @@ class Interp(CallMixin):
             try:
                 self.exec_block(fn.node.body, frame)
             except _Return as r:
-                return frame.yields if is_gen else r.value
-            return frame.yields if is_gen else None
+                return (one_shot(frame.yields) if frame.yield_hook is None else None) if is_gen else r.value
+            return (one_shot(frame.yields) if frame.yield_hook is None else None) if is_gen else None
         finally:
             self.call_depth -= 1
 
